@@ -53,12 +53,12 @@ def parse(out):
     # per harness: (failed, total) CBMC checks; for a #[kani::should_panic] harness that verified ("encountered one or more panics as
     # expected") the reached panic IS the obligation: its "failed" checks are the expected outcome, not undischarged ones
     checks = []
-    for blk in re.split(r"(?=Checking harness )", out):
-        m = re.search(r"\*\* (\d+) of (\d+) failed", blk)
-        if not m:
-            continue
+    ms = list(re.finditer(r"\*\* (\d+) of (\d+) failed", out))
+    for k, m in enumerate(ms):
         f, n = int(m.group(1)), int(m.group(2))
-        if "VERIFICATION:- SUCCESSFUL (encountered one or more panics as expected)" in blk:
+        nxt = ms[k + 1].start() if k + 1 < len(ms) else len(out)
+        v = re.search(r"VERIFICATION:- [A-Z]+[^\n]*", out[m.end():nxt])
+        if v and "encountered one or more panics as expected" in v.group(0):
             f = 0
         checks.append((f, n))
     ok = len(re.findall(r"VERIFICATION:- SUCCESSFUL", out))
